@@ -4,6 +4,7 @@
    statements below are about the constants, tables and regular expression
    that are in version.go on this run. *)
 From Apko Require Import Base.Prelude Base.Regex Spec.VersionSpec Model.Version Proofs.VersionProofs Proofs.ConstraintProofs
+  Proofs.VersionStringProofs
   Generated.Regexes Generated.VersionConsts Generated.C03Version Generated.C03Ladders.
 Open Scope Z_scope.
 
@@ -99,6 +100,94 @@ Proof.
   apply Forall_forall. intros c Hc. vm_compute in Hc.
   repeat (destruct Hc as [<-|Hc]; [reflexivity|]). contradiction.
 Qed.
+
+(* ---- lifted to version STRINGS -------------------------------------------- *)
+
+(* every version the parser accepts decodes to a tuple of the spec, so the
+   hypotheses [abs _ = Some _] of the theorems above hold of every parsed version *)
+Theorem c03_parsed_versions_decode : forall s m, parse_version s = Some m -> exists v, abs m = Some v.
+Proof. exact parse_abs. Qed.
+Print Assumptions c03_parsed_versions_decode.
+
+(* On the strings ParseVersion accepts, the relation CompareVersions induces
+   ([str_cmp], None when one side is not a version) is a total preorder: defined
+   with one of the three results exactly on pairs of accepted strings, reflexive,
+   less/greater mirrored, total, <= and < transitive; its equivalence ("equal")
+   is NOT string equality but "same parsed version" (same Go struct, hence same
+   tuple), and <= both ways is that equivalence. *)
+Theorem c03_preorder_on_strings :
+  (forall s t, (exists a b, parse_version s = Some a /\ parse_version t = Some b) <->
+               (str_cmp s t = Some cmp_less \/ str_cmp s t = Some cmp_equal \/ str_cmp s t = Some cmp_greater)) /\
+  (forall s a, parse_version s = Some a -> str_equiv s s) /\
+  (forall s t, str_cmp s t = Some cmp_less <-> str_cmp t s = Some cmp_greater) /\
+  (forall s t, str_equiv s t <-> str_equiv t s) /\
+  (forall s t a b, parse_version s = Some a -> parse_version t = Some b -> str_le s t \/ str_le t s) /\
+  (forall s t u, str_le s t -> str_le t u -> str_le s u) /\
+  (forall s t u, str_cmp s t = Some cmp_less -> str_cmp t u = Some cmp_less -> str_cmp s u = Some cmp_less) /\
+  (forall s t, str_equiv s t <-> exists a, parse_version s = Some a /\ parse_version t = Some a) /\
+  (forall s t, str_le s t -> str_le t s -> str_equiv s t).
+Proof. exact preorder_on_strings. Qed.
+Print Assumptions c03_preorder_on_strings.
+
+(* stated, not hidden: the preorder is not an order on strings *)
+Example c03_leading_zero_equivalent :
+  "1.01"%string <> "1.1"%string /\ str_equiv "1.01" "1.1" /\
+  parse_version "1.01" = parse_version "1.1" /\
+  (exists a, parse_version "1.01" = Some a /\ m_nums a = [1; 1]).
+Proof. exact leading_zero_equivalent. Qed.
+
+(* ParsedConstraint.SatisfiedBy on strings: a constraint (any name, any pin)
+   whose operator is a row of the switch and whose version string parses, asked
+   about a parsed version, answers the spec's operator on the two tuples *)
+Theorem c03_operators_on_strings : forall row cname pin sv pv s a,
+  In row matcher_table -> parse_version sv = Some pv -> parse_version s = Some a ->
+  exists va vr, abs a = Some va /\ abs pv = Some vr /\
+    satisfied_by {| c_name := cname; c_version := sv; c_dep := snd row; c_pin := pin |} a
+      = Some (spec_sat (vop_of_string (fst row)) va vr).
+Proof. intros row cname pin sv pv s a Hin Hsv Hs. exact (satisfied_by_is_spec row cname pin sv pv a Hin Hsv s Hs). Qed.
+Print Assumptions c03_operators_on_strings.
+
+(* the fuzzy operator on strings: the component-prefix rule *)
+Theorem c03_tilde_on_strings : forall cname pin sv pv s a,
+  parse_version sv = Some pv -> parse_version s = Some a ->
+  exists va vr, abs a = Some va /\ abs pv = Some vr /\
+    satisfied_by {| c_name := cname; c_version := sv; c_dep := dep_versionTilde; c_pin := pin |} a
+      = Some (spec_tilde va vr).
+Proof.
+  intros cname pin sv pv s a Hsv Hs.
+  exact (satisfied_by_is_spec ("~"%string, dep_versionTilde) cname pin sv pv a ltac:(vm_compute; auto 10) Hsv s Hs).
+Qed.
+Print Assumptions c03_tilde_on_strings.
+
+(* bare names accept everything; an unparsable constraint version is an error, never a verdict *)
+Theorem c03_satisfied_by_edges : forall cname dep pin a,
+  satisfied_by {| c_name := cname; c_version := ""; c_dep := dep; c_pin := pin |} a = Some true /\
+  (forall sv, sv <> ""%string -> parse_version sv = None ->
+     satisfied_by {| c_name := cname; c_version := sv; c_dep := dep; c_pin := pin |} a = None).
+Proof. exact satisfied_by_edges. Qed.
+Print Assumptions c03_satisfied_by_edges.
+
+(* from the constraint STRING to the verdict (c03_constraint_split composed with
+   c03_operators_on_strings): clean parts, one of the six operators, a version that parses *)
+Theorem c03_constraint_string_is_spec : forall s0 name ops v pin row pv s a,
+  bytes_of_string s0 = (name ++ ops ++ v ++ pin_tail pin)%list ->
+  no_so_prefix (bytes_of_string s0) ->
+  clean name ops v pin ->
+  In row matcher_table -> string_of_bytes ops = fst row ->
+  parse_version (string_of_bytes v) = Some pv ->
+  parse_version s = Some a ->
+  exists va vr, abs a = Some va /\ abs pv = Some vr /\
+    satisfied_by (resolve_constraint s0) a = Some (spec_sat (vop_of_string (fst row)) va vr).
+Proof. exact constraint_string_is_spec. Qed.
+Print Assumptions c03_constraint_string_is_spec.
+
+Example c03_constraint_string_example :
+  exists a, parse_version "1.2.3-r1" = Some a /\
+    satisfied_by (resolve_constraint "foo-bar>=1.2_rc1-r3@edge") a = Some true /\
+    satisfied_by (resolve_constraint "foo~1.2") a = Some true /\
+    satisfied_by (resolve_constraint "foo~1.3") a = Some false /\
+    satisfied_by (resolve_constraint "foo<1.2.3") a = Some false.
+Proof. eexists. repeat split; vm_compute; reflexivity. Qed.
 
 (* non-vacuity: real version strings parse, decode and compare *)
 Example c03_example :
